@@ -127,7 +127,42 @@ func truth(c *Case) []truthConv {
 	return res
 }
 
+// convOfPacket: which conversation a packet of a capture file belongs to (Rep packets expanded) — two
+// conversations may use the same 4-tuple one after the other, so endpoints alone do not identify one
+func convOfPacket(c *Case) map[string]int {
+	m := map[string]int{}
+	for _, f := range c.Files {
+		idx := 0
+		for _, p := range f.Pkts {
+			n := p.Rep
+			if n < 1 {
+				n = 1
+			}
+			for k := 0; k < n; k++ {
+				m[fmt.Sprintf("%s#%d", f.Name, idx)] = p.Conv
+				idx++
+			}
+		}
+	}
+	return m
+}
+
 func matchConv(c *Case, o *StreamObs) (int, bool) {
+	// a stream belongs to the conversation of its first packet; the orientation is read off the endpoints
+	if len(o.Pkts) != 0 {
+		if i, ok := convOfPacket(c)[fmt.Sprintf("%s#%d", o.Pkts[0].File, o.Pkts[0].Idx)]; ok && i < len(c.Convs) {
+			cv := c.Convs[i]
+			if cv.Proto == o.Proto {
+				ch, sh := c.Hosts[cv.C], c.Hosts[cv.S]
+				if ch == o.CHost && sh == o.SHost && cv.CP == o.CPort && cv.SP == o.SPort {
+					return i, true
+				}
+				if ch == o.SHost && sh == o.CHost && cv.CP == o.SPort && cv.SP == o.CPort {
+					return i, false
+				}
+			}
+		}
+	}
 	for i, cv := range c.Convs {
 		if cv.Proto != o.Proto {
 			continue
